@@ -956,7 +956,8 @@ _MAX_POS = {"numpy.random.randint": 2, "list.index": 1, "builtins.len": 1, "buil
             "math.ceil": 1, "set.add": 1, "list.append": 1, "list.insert": 2, "str.lower": 0, "numpy.copy": 1,
             "ndarray.copy": 0, "ndarray.flatten": 0, "numpy.array_equal": 2, "numpy.float32": 1, "numpy.int64": 1,
             "numpy.random.seed": 1, "numpy.random.random_sample": 1, "builtins.hash": 1, "builtins.divmod": 2,
-            "builtins.isinstance": 2, "builtins.type": 1, "builtins.enumerate": 2, "builtins.round": 2, "builtins.sum": 2}
+            "builtins.isinstance": 2, "builtins.type": 1, "builtins.enumerate": 2, "builtins.round": 2, "builtins.sum": 2,
+            "list.remove": 1, "list.pop": 1, "list.clear": 0, "list.reverse": 0, "list.count": 1}
 # keyword arguments that cannot change what the model states (documented per entry)
 _KW_HARMLESS = {
     "builtins.print": {"end", "sep", "file", "flush"},             # output only
@@ -1188,7 +1189,19 @@ def _m_setattr(I, b, a, kw, node):
 def _m_hash(I, b, a, kw, node):
     # assumed: hash() is some integer function of the value; nothing else is known about it
     v = a[0]
-    if isinstance(v, (int, str, float, tuple)) and not isinstance(v, bool) and not (isinstance(v, tuple) and any(is_sym(x) for x in v)):
+
+    def has_str(x):
+        if isinstance(x, (str, NameK)) or (isinstance(x, SymV) and x.ty == "name"):
+            return True
+        return isinstance(x, tuple) and any(has_str(y) for y in x)
+    if has_str(v):
+        # str hashes are randomised per process (PYTHONHASHSEED): the value is an arbitrary integer and any use of it
+        # is a dependence on process-wide state - recorded like a draw, so that the RNG frame obligation of every
+        # contract that does not declare it fails (C14: same seed, same scenario in every process)
+        h = I.ctx.fresh("str_hash", z3.IntSort())
+        I.ctx.draws.append(("hashseed", h))
+        return SymV(h, "int")
+    if isinstance(v, (int, float, tuple)) and not isinstance(v, bool) and not (isinstance(v, tuple) and any(is_sym(x) for x in v)):
         return hash(v)
     return SymV(I.ctx.fresh("hash", z3.IntSort()), "int")
 
@@ -1258,6 +1271,61 @@ def _m_insert(I, b, a, kw, node):
         b.items.insert(a[0], a[1])
         return None
     raise EngineLimit("insert")
+
+
+def _note_list_write(I, b):
+    if not isinstance(b, PyList):
+        raise EngineLimit("list mutation on a symbolic-length sequence")
+    if not b.fresh:
+        I.ctx.writes.append(("list", b))
+
+
+@ext("list.remove")
+def _m_lremove(I, b, a, kw, node):
+    _note_list_write(I, b)
+    for j, it in enumerate(b.items):
+        t = _eq_term(I, a[0], it)
+        if t is True or (t is not False and I.ctx.branch(t)):
+            del b.items[j]
+            return None
+    I.raise_("ValueError", node)
+
+
+@ext("list.pop")
+def _m_lpop(I, b, a, kw, node):
+    _note_list_write(I, b)
+    if not b.items:
+        I.raise_("IndexError", node)
+    idx = a[0] if a else -1
+    if not isinstance(idx, int):
+        raise EngineLimit("list.pop with a symbolic index")
+    if not -len(b.items) <= idx < len(b.items):
+        I.raise_("IndexError", node)
+    return b.items.pop(idx)
+
+
+@ext("list.clear")
+def _m_lclear(I, b, a, kw, node):
+    _note_list_write(I, b)
+    b.items.clear()
+
+
+@ext("list.reverse")
+def _m_lreverse(I, b, a, kw, node):
+    _note_list_write(I, b)
+    b.items.reverse()
+
+
+@ext("list.count")
+def _m_lcount(I, b, a, kw, node):
+    if not isinstance(b, PyList):
+        raise EngineLimit("count on a symbolic-length sequence")
+    tot = 0
+    for it in b.items:
+        t = _eq_term(I, a[0], it)
+        if t is True or (t is not False and I.ctx.branch(t)):
+            tot += 1
+    return tot
 
 
 @ext("list.copy")
@@ -1441,7 +1509,24 @@ def _m_dupdate(I, b, a, kw, node):
         if not b.fresh:
             I.ctx.writes.append(("dict", b))
         if a:
+            if a[0].sym:
+                raise EngineLimit("dict.update from a dict with symbolic keys")
             b.d.update(a[0].d)
+        b.d.update(kw)
+        return None
+    if isinstance(b, PyDict) and len(a) == 1 and not b.sym:
+        # an iterable of (key, value) pairs of concrete length with concrete keys
+        pairs = I.iter_concrete(a[0])
+        new = []
+        for p_ in pairs:
+            if not (isinstance(p_, tuple) and len(p_) == 2):
+                raise EngineLimit("dict.update from an iterable whose items are not pairs")
+            check_hashable_concrete(p_[0])
+            new.append(p_)
+        if not b.fresh:
+            I.ctx.writes.append(("dict", b))
+        for k_, v_ in new:
+            b.d[k_] = v_
         b.d.update(kw)
         return None
     raise EngineLimit("dict.update")
@@ -1508,6 +1593,22 @@ def _m_lower(I, b, a, kw, node):
     return b.lower()
 
 
+def _concrete_str_method(name):
+    def model(I, b, a, kw, node):
+        if not isinstance(b, str) or any(not isinstance(x, (str, int, tuple)) or isinstance(x, bool) for x in a) or kw:
+            raise EngineLimit(f"str.{name} on a non-concrete string / with symbolic arguments")
+        try:
+            return getattr(b, name)(*a)
+        except (TypeError, ValueError) as e:
+            I.raise_(type(e).__name__, node)
+    return model
+
+
+for _n in ("strip", "lstrip", "rstrip", "upper", "title", "capitalize", "startswith", "endswith", "replace", "isdigit",
+           "isalpha", "casefold", "count", "find"):
+    ext("str." + _n)(_concrete_str_method(_n))
+
+
 @ext("str.split")
 def _m_split(I, b, a, kw, node):
     return PyList(b.split(*a))
@@ -1570,6 +1671,47 @@ def _m_flatten(I, b, a, kw, node):
     cell = NpCell(flat, (n,), dtype=b.cell.dtype, fresh=True, label="flat")
     cell.flat_of = (src, R, W)
     return NpArr(cell)
+
+
+def _np_extreme(I, b, a, kw, node, which):
+    """assumed NumPy contract of ndarray.min() / max() without axis: a cell value that bounds every cell (non-empty
+    array)"""
+    if a or kw:
+        raise EngineLimit(f"ndarray.{which} with axis / keyword arguments")
+    if not isinstance(b, NpArr):
+        raise EngineLimit(f"{which} of {b!r}")
+    r = I.ctx.fresh("np_" + which, z3.RealSort())
+    le = (lambda x, y: x <= y) if which == "min" else (lambda x, y: x >= y)
+    src = b.content()
+    if b.ndim == 1:
+        n = ival(b.shape[0])
+        i, i0 = z3.Int("_mm_i"), I.ctx.fresh("mm_i0", z3.IntSort())
+        if I.ctx.branch(n <= 0):
+            I.raise_("ValueError", node)
+        I.ctx.assume(z3.ForAll([i], z3.Implies(z3.And(0 <= i, i < n), le(r, z3.Select(src, i)))))
+        I.ctx.assume(z3.And(0 <= i0, i0 < n, z3.Select(src, i0) == r))
+    elif b.ndim == 2:
+        R, W = ival(b.shape[0]), ival(b.shape[1])
+        i, j = z3.Int("_mm_i"), z3.Int("_mm_j")
+        i0, j0 = I.ctx.fresh("mm_i0", z3.IntSort()), I.ctx.fresh("mm_j0", z3.IntSort())
+        if I.ctx.branch(z3.Or(R <= 0, W <= 0)):
+            I.raise_("ValueError", node)
+        I.ctx.assume(z3.ForAll([i, j], z3.Implies(z3.And(0 <= i, i < R, 0 <= j, j < W),
+                                                  le(r, z3.Select(z3.Select(src, i), j)))))
+        I.ctx.assume(z3.And(0 <= i0, i0 < R, 0 <= j0, j0 < W, z3.Select(z3.Select(src, i0), j0) == r))
+    else:
+        raise EngineLimit("ndim")
+    return SymV(r, "real")
+
+
+@ext("ndarray.min")
+def _m_ndmin(I, b, a, kw, node):
+    return _np_extreme(I, b, a, kw, node, "min")
+
+
+@ext("ndarray.max")
+def _m_ndmax(I, b, a, kw, node):
+    return _np_extreme(I, b, a, kw, node, "max")
 
 
 @ext("numpy.empty")
